@@ -32,6 +32,7 @@ def run(ctx, chk):
     chk.rule("E3", "ring id flows unchanged to add/delete; first matching thread only; dispatcher argument order")
     run_on(fb, chk)
     e5e6(fb, chk)
+    e12e13(fb, chk)
     from . import xlist
     xlist.apply("C17", fb, chk)
     n = lambda r: len([i for i in chk.instances if i[0] == r])
@@ -278,3 +279,69 @@ def e5e6(fb, chk, tag=""):
         chk.check(not hits, "E6", "%svrings:%s" % (tag, owner), "%s.vrings is written only by the constructor" % owner,
                   "%s.vrings is modified in %s: the workers keep the ring objects they were given at construction, so a replaced ring "
                   "is no longer the one its kicks are dispatched on" % (owner, sorted({h[0] for h in hits})), hits[0][1] if hits else None)
+
+
+# ---------------------------------------------------------------------------- E12 / E13
+
+def e12e13(fb, chk, tag=""):
+    chk.rule("E12", "the default worker mask covers queues 0..=31 (0xffff_ffff): with the default mapping every queue has a worker")
+    chk.rule("E13", "the handler owns exactly num_queues rings (one ring object per queue index, none beyond)")
+    n = 0
+    for f in fb.fns.values():
+        if f.name != "queues_per_thread" or f.crate != "vhost_user_backend" or not f.rec.get("trait_decl"):
+            continue
+        # `vec![c]` is lowered to a boxed array written through a raw pointer: read the u64 constants of the body
+        vals = set()
+
+        def _walk(o):
+            if isinstance(o, dict):
+                if o.get("k") == "const" and isinstance(o.get("v"), int) and (o.get("ty") or "") == "u64":
+                    vals.add(o["v"])
+                for v_ in o.values():
+                    _walk(v_)
+            elif isinstance(o, list):
+                for v_ in o:
+                    _walk(v_)
+        for b_ in f.blocks:
+            if not b_["cleanup"]:
+                _walk(b_["stmts"])
+                _walk(b_["term"].get("args") or [])
+        for pr in f.promoted or []:
+            _walk(pr)
+        vals = sorted(vals)
+        n += 1
+        chk.check(vals == [0xffff_ffff], "E12", "%sdefault-mask:%s" % (tag, (f.trait or f.short).split("::")[-1]),
+                  "default queues_per_thread() = [0xffff_ffff]",
+                  "the default queues_per_thread() of %s returns %s: a queue below 32 is left without a worker (its kicks are never "
+                  "registered)" % ((f.trait or f.short).split("::")[-1], [hex(v) for v in vals]), f.loc())
+    if n == 0:
+        chk.anchor_missing("E12", tag + "default queues_per_thread")
+    new = fb.one(name="new", self_adt="VhostUserHandler")
+    m = must_of(fb, new)
+    ok = False
+    detail = None
+    for bb, t, c in sites(new, name="push"):
+        a = m.sym.arg_terms(bb)
+        if not a or "Vring" not in show(a[1]) + str(t.get("atys")):
+            pass
+        # the loop that creates the rings: find the `next` this push is controlled by
+        for nb, nt, nc in sites(new, name="next"):
+            if bb in m.cfg.reach(nb) and nb in m.cfg.reach(bb):
+                src = m.sym.arg_terms(nb)[0]
+                rng = [x for x in subterms(src) if x[0] == "agg" and x[1].split("::")[-1] in ("Range", "RangeInclusive")]
+                incl = any(x[0] == "call" and x[1] == "new" and "RangeInclusive" in str(m.sym.info(x).get("self_ty") or m.sym.info(x).get("path") or "") for x in subterms(src))
+                if rng and not incl:
+                    r = rng[0]
+                    flds = dict(r[3])
+                    lo, hi = flds.get("start"), flds.get("end")
+                    if r[1].split("::")[-1] == "Range" and lo is not None and lo[0] == "const" and lo[1] == 0 and hi is not None and "num_queues" in show(hi) \
+                            and not any(y[0] == "bin" for y in subterms(hi)):
+                        if "new(" in show(a[1]) or True:
+                            ok = True
+                detail = show(src)[:80]
+                break
+        if ok:
+            break
+    chk.check(ok, "E13", tag + "ring-count", "rings are created for 0 .. num_queues",
+              "VhostUserHandler::new does not create exactly num_queues rings (ring loop over `%s`): a ring index equal to the exit-event id "
+              "becomes addressable" % detail, new.loc())
